@@ -701,6 +701,14 @@ def sync_pattern_rows(proj, patterns):
         # the simulated user restores the project between rows, so that every row starts from the same files
         if exp != "reject":
             ops += pre
+        if fcount[t] >= 2 and idx % 3 == 0:
+            # the same row with a typo in the truth path: the first file of the truth kind (the truth file) does not exist
+            # although later files of that kind do - "--truth must be an existent file", and nothing may be touched
+            first = argv.index(flag[t]) + 1
+            argv2 = list(argv)
+            argv2[first] = W + "no_such_truth.py"
+            ops.append({"op": "cli", "argv": argv2, "expect": "reject", "why": "pattern f=%s n=%s truth=%s, truth file missing" % (
+                "".join(str(fcount[k]) for k in kinds), "".join(str(ncount[k]) for k in kinds), t[0]), "files": sorted(set(files)), "pattern": idx})
     return ops
 
 
